@@ -25,6 +25,7 @@
 #include <vector>
 
 #include "fuzz_common.h"
+#include "known.h"
 #include "proto/c11_compat.pb.h"
 
 namespace c11 {
@@ -36,8 +37,7 @@ using babylon::SwissString;
 using babylon::SwissVector;
 namespace pbio = ::google::protobuf::io;
 
-// known findings are excluded from generation by default; VF_ALLOW_KNOWN=1 re-enables all of them,
-// VF_ALLOW_KNOWN=f5,f8 only the named ones
+// known findings are excluded from generation by default
 // A witness file of a known finding starts with the 8 bytes "C11KNOWN": for that one input every
 // known_* exclusion is off, so `<target binary> <witness>` fails on a tree that still has the
 // defect. The prefix is recognised by hash, not by comparison, so that the fuzzer's comparison
@@ -54,12 +54,12 @@ inline void strip_witness_prefix(const uint8_t*& data, size_t& size) {
     size -= 8;
   }
 }
-inline bool allow_known(const char* which) {
-  if (witness_mode()) return true;
-  const char* e = getenv("VF_ALLOW_KNOWN");
-  if (!e || !*e) return false;
-  return strcmp(e, "1") == 0 || strstr(e, which) != nullptr;
-}
+// tokens (targets/known.h: VF_ALLOW_KNOWN=1 or a comma-separated list re-enables the shapes):
+//   f5                        top-level / hostile-length vector on a limit-less stream (DESIGN.md F5)
+//   c11-stale-field-cache     per-field cached size not refreshed when the member became empty
+//   c11-null-scalar-ptr-elem  null smart pointer to a scalar as a container / array element
+//   c11-no-progress           container of length-delimited elements never advances on an unreadable length
+inline bool allow_known(const char* token) { return witness_mode() || vf_allow_known(token); }
 // protobuf logs "invalid UTF-8" for proto2 string fields in debug builds: keep the shard logs readable
 inline void quiet_protobuf() {
   static const bool once = (::google::protobuf::SetLogHandler(nullptr), true);
@@ -419,29 +419,29 @@ constexpr bool f5_reserve_reach() {
   }
 }
 
-// F9: does the parser of T reach a std::vector / list / unordered_set / unordered_map /
-// ReusableVector whose elements (keys, values) are length-delimited (see known_f9 in c11_hostile.cpp)
-template <class T> constexpr bool f9_reach();
+// no-progress finding: does the parser of T reach a std::vector / list / unordered_set / unordered_map /
+// ReusableVector whose elements (keys, values) are length-delimited (see known_unreadable_length_no_progress in c11_hostile.cpp)
+template <class T> constexpr bool noprogress_reach();
 template <class Tuple, size_t... I>
-constexpr bool f9_reach_tuple(std::index_sequence<I...>) {
-  return (f9_reach<typename std::remove_cv<typename std::remove_reference<typename std::tuple_element<I, Tuple>::type>::type>::type>() || ...);
+constexpr bool noprogress_reach_tuple(std::index_sequence<I...>) {
+  return (noprogress_reach<typename std::remove_cv<typename std::remove_reference<typename std::tuple_element<I, Tuple>::type>::type>::type>() || ...);
 }
 template <class T>
-constexpr bool f9_reach() {
+constexpr bool noprogress_reach() {
   if constexpr (is_seq<T>::value || is_set<T>::value) {
     using E = typename T::value_type;
-    return is_ld<E>::value || f9_reach<E>();
+    return is_ld<E>::value || noprogress_reach<E>();
   } else if constexpr (is_map<T>::value) {
     using K = typename T::key_type;
     using V = typename T::mapped_type;
-    return is_ld<K>::value || is_ld<V>::value || f9_reach<K>() || f9_reach<V>();
+    return is_ld<K>::value || is_ld<V>::value || noprogress_reach<K>() || noprogress_reach<V>();
   } else if constexpr (is_ptr<T>::value) {
-    return f9_reach<typename std::remove_const<typename T::element_type>::type>();
+    return noprogress_reach<typename std::remove_const<typename T::element_type>::type>();
   } else if constexpr (std::is_array<T>::value) {
-    return f9_reach<typename std::remove_extent<T>::type>();
+    return noprogress_reach<typename std::remove_extent<T>::type>();
   } else if constexpr (Aggregate<T>) {
     using Tuple = decltype(std::declval<T&>().vf_tie());
-    return f9_reach_tuple<Tuple>(std::make_index_sequence<std::tuple_size<Tuple>::value>());
+    return noprogress_reach_tuple<Tuple>(std::make_index_sequence<std::tuple_size<Tuple>::value>());
   } else {
     return false;
   }
@@ -450,27 +450,27 @@ constexpr bool f9_reach() {
 // ... the subset whose loop condition is BytesUntilLimit() > 0: std::vector / ReusableVector of
 // elements whose parse can succeed without consuming anything at the end of the data
 // (length-delimited elements: unreadable length taken as 0; smart pointers: nothing to read)
-template <class T> constexpr bool f9_vector_reach();
+template <class T> constexpr bool noprogress_vector_reach();
 template <class Tuple, size_t... I>
-constexpr bool f9_vector_reach_tuple(std::index_sequence<I...>) {
-  return (f9_vector_reach<typename std::remove_cv<typename std::remove_reference<typename std::tuple_element<I, Tuple>::type>::type>::type>() || ...);
+constexpr bool noprogress_vector_reach_tuple(std::index_sequence<I...>) {
+  return (noprogress_vector_reach<typename std::remove_cv<typename std::remove_reference<typename std::tuple_element<I, Tuple>::type>::type>::type>() || ...);
 }
 template <class T>
-constexpr bool f9_vector_reach() {
+constexpr bool noprogress_vector_reach() {
   if constexpr (is_seq<T>::value) {
     using E = typename T::value_type;
-    return (f5_affected<T>::value && (is_ld<E>::value || is_ptr<E>::value)) || f9_vector_reach<E>();
+    return (f5_affected<T>::value && (is_ld<E>::value || is_ptr<E>::value)) || noprogress_vector_reach<E>();
   } else if constexpr (is_set<T>::value) {
-    return f9_vector_reach<typename T::value_type>();
+    return noprogress_vector_reach<typename T::value_type>();
   } else if constexpr (is_map<T>::value) {
-    return f9_vector_reach<typename T::key_type>() || f9_vector_reach<typename T::mapped_type>();
+    return noprogress_vector_reach<typename T::key_type>() || noprogress_vector_reach<typename T::mapped_type>();
   } else if constexpr (is_ptr<T>::value) {
-    return f9_vector_reach<typename std::remove_const<typename T::element_type>::type>();
+    return noprogress_vector_reach<typename std::remove_const<typename T::element_type>::type>();
   } else if constexpr (std::is_array<T>::value) {
-    return f9_vector_reach<typename std::remove_extent<T>::type>();
+    return noprogress_vector_reach<typename std::remove_extent<T>::type>();
   } else if constexpr (Aggregate<T>) {
     using Tuple = decltype(std::declval<T&>().vf_tie());
-    return f9_vector_reach_tuple<Tuple>(std::make_index_sequence<std::tuple_size<Tuple>::value>());
+    return noprogress_vector_reach_tuple<Tuple>(std::make_index_sequence<std::tuple_size<Tuple>::value>());
   } else {
     return false;
   }
@@ -579,14 +579,14 @@ template <class T>
 void fill_elem(T& e, Gen& g) {
   fill(e, g);
   if constexpr (is_ptr<T>::value && !is_ld<T>::value) {
-    // known_f8_null_scalar_ptr_element: a null smart pointer to a scalar contributes no bytes as
+    // known_null_scalar_ptr_element: a null smart pointer to a scalar contributes no bytes as
     // a packed element / array slot, so the element is lost (or the array misaligned) on the way
-    // back; see the C11 report. Excluded unless VF_ALLOW_KNOWN names f8.
+    // back; see the C11 report. Excluded unless VF_ALLOW_KNOWN names c11-null-scalar-ptr-elem.
     if (!e) {
-      if (allow_known("f8")) {
+      if (allow_known("c11-null-scalar-ptr-elem")) {
         g.scalar_ptr_elem_null = true;
       } else {
-        vfz::label("excluded_known_f8");
+        vfz::label("excluded_known_null_scalar_ptr_elem");
         e.reset(new typename T::element_type());
         fill(*e, g);
       }
@@ -1118,7 +1118,7 @@ struct Ptrs {
   VF_TIE(ui, uf, us, uagg, ume, uu, uv, ucs, si, ss, sagg, sme, sss, sv, vu, vsp)
 };
 
-// containers / arrays whose elements are smart pointers to scalars (see known_f8 in fill_elem)
+// containers / arrays whose elements are smart pointers to scalars (see known_null_scalar_ptr_element in fill_elem)
 struct ScalarPtrElems {
   std::vector<std::unique_ptr<int32_t>> vup;
   std::list<std::shared_ptr<double>> lsp;
